@@ -14,7 +14,7 @@ type TurnTargetsAdded struct {
 type TurnResetEventHandler = handler.EventHandler[TurnReset]
 type TurnReset struct {
 	ResetTarget key.TargetID `json:"reset_target"`
-	GaugeCost   int64        `json:"gauge_cost"`
+	GaugeCost   float64      `json:"gauge_cost"`
 	TurnOrder   []TurnStatus `json:"turn_order"`
 }
 
@@ -32,8 +32,8 @@ type CurrentGaugeCostChangeEventHandler = handler.EventHandler[CurrentGaugeCostC
 type CurrentGaugeCostChange struct {
 	Key     key.Reason   `json:"key"`
 	Source  key.TargetID `json:"source"`
-	OldCost int64        `json:"old_cost"`
-	NewCost int64        `json:"new_cost"`
+	OldCost float64      `json:"old_cost"`
+	NewCost float64      `json:"new_cost"`
 }
 
 type TurnStatus struct {
